@@ -18,3 +18,6 @@ void *__new(usize size)
 }
 void __delete_array(void *p) { free(p); }
 void __delete(void *p) { free(p); }
+/* placement new: constructs in the given storage, allocates nothing */
+void *__placement_new(usize size, void *p) { (void)size; return p; }
+void *__placement_new_array(usize count, usize size, void *p) { (void)count; (void)size; return p; }
